@@ -84,21 +84,39 @@ func (d *deadlineImpl) Unary(c *dyn.Call) (proto.Message, error) {
 func (d *deadlineImpl) Stream(c *dyn.Call) error { return nil }
 
 type c15Env struct {
-	mux  *larking.Mux
-	impl *deadlineImpl
-	body []byte
+	mux     *larking.Mux // plain
+	muxOpts *larking.Mux // the same service behind pass-through interceptors and a stats handler
+	k       int          // calls alternate between the two
+	impl    *deadlineImpl
+	body    []byte
+}
+
+// c15PassThroughOpts: options that must not change what the handler's context carries.
+func c15PassThroughOpts() []larking.MuxOption {
+	return []larking.MuxOption{
+		larking.UnaryServerInterceptorOption(func(ctx context.Context, req interface{}, info *grpc.UnaryServerInfo, handler grpc.UnaryHandler) (interface{}, error) {
+			return handler(ctx, req)
+		}),
+		larking.StreamServerInterceptorOption(func(srv interface{}, ss grpc.ServerStream, info *grpc.StreamServerInfo, handler grpc.StreamHandler) error {
+			return handler(srv, ss)
+		}),
+		larking.StatsOption(&statsProbe{}),
+	}
 }
 
 func newC15Env(t *tSchema) *c15Env {
-	m, err := larking.NewMux(t.opts...)
-	if err != nil {
-		panic(err)
-	}
 	impl := &deadlineImpl{}
-	if err := m.VerifRegisterService(t.gsd, dyn.NewServer(impl)); err != nil {
-		panic(err)
+	mk := func(extra ...larking.MuxOption) *larking.Mux {
+		m, err := larking.NewMux(append(append([]larking.MuxOption{}, t.opts...), extra...)...)
+		if err != nil {
+			panic(err)
+		}
+		if err := m.VerifRegisterService(t.gsd, dyn.NewServer(impl)); err != nil {
+			panic(err)
+		}
+		return m
 	}
-	return &c15Env{mux: m, impl: impl, body: wire.GRPCFrame(0, nil)}
+	return &c15Env{mux: mk(), muxOpts: mk(c15PassThroughOpts()...), impl: impl, body: wire.GRPCFrame(0, nil)}
 }
 
 var maxDur = big.NewInt(math.MaxInt64)
@@ -111,7 +129,17 @@ func (e *c15Env) timeoutCheck(to string, signedNotDemanded bool) (oracle, note s
 	req := newPostRequest("/vs.T/Unary", hdr, rd, -1)
 	req.Proto, req.ProtoMajor, req.ProtoMinor = "HTTP/2.0", 2, 0
 	before := time.Now()
-	sr := serveReq(e.mux, req)
+	mux, where := e.mux, ""
+	if e.k%2 == 1 {
+		mux, where = e.muxOpts, " (mux with pass-through interceptors and a stats handler)"
+	}
+	e.k++
+	defer func() {
+		if oracle != "" {
+			note += where
+		}
+	}()
+	sr := serveReq(mux, req)
 	if sr.Panicked {
 		return "panic", sr.Panic
 	}
@@ -425,7 +453,7 @@ func (h *cancelImpl) Stream(c *dyn.Call) error {
 
 var c15T *tSchema
 
-func newC15Sys(protoName, shape string, late bool) *c15Sys {
+func newC15Sys(protoName, shape string, late bool, withOpts ...bool) *c15Sys {
 	if c15T == nil {
 		t, err := newTSchema()
 		if err != nil {
@@ -434,7 +462,11 @@ func newC15Sys(protoName, shape string, late bool) *c15Sys {
 		c15T = t
 	}
 	s := &c15Sys{t: c15T, proto: protoName, shape: shape, late: late, body: &blockingBody{}, rec: env.NewRecorder()}
-	m, err := larking.NewMux(c15T.opts...)
+	mopts := append([]larking.MuxOption{}, c15T.opts...)
+	if len(withOpts) > 0 && withOpts[0] {
+		mopts = append(mopts, c15PassThroughOpts()...)
+	}
+	m, err := larking.NewMux(mopts...)
 	if err != nil {
 		panic(err)
 	}
@@ -464,10 +496,14 @@ func newC15Sys(protoName, shape string, late bool) *c15Sys {
 	return s
 }
 
-func c15Scenario(protoName, shape string, late bool) *e3Scenario {
+func c15Scenario(protoName, shape string, late bool, withOpts ...bool) *e3Scenario {
 	name := fmt.Sprintf("cancel-%s-%s", protoName, shape)
 	if late {
 		name += "-leaked-sender"
+	}
+	opts := len(withOpts) > 0 && withOpts[0]
+	if opts {
+		name += "+interceptors+stats"
 	}
 	server := e3Thread{Name: "server", Body: func(sys any) {
 		s := sys.(*c15Sys)
@@ -567,7 +603,7 @@ func c15Scenario(protoName, shape string, late bool) *e3Scenario {
 	}
 	threads := []e3Thread{server, feeder, canceller}
 	return &e3Scenario{Name: name, Desc: fmt.Sprintf("%s %s call: the client cancels at an arbitrary point while messages are fed and the handler receives/sends", protoName, shape), PoolPoints: false,
-		Setup: func() any { return newC15Sys(protoName, shape, late) }, Threads: threads, Check: check, MaxSteps: 50000}
+		Setup: func() any { return newC15Sys(protoName, shape, late, opts) }, Threads: threads, Check: check, MaxSteps: 50000}
 }
 
 func c15Scenarios(thorough bool) []*e3Scenario {
@@ -578,12 +614,15 @@ func c15Scenarios(thorough bool) []*e3Scenario {
 		}
 	}
 	scs = append(scs, c15Scenario("grpc", "bidi", true), c15Scenario("web", "ss", true))
+	// the same on a mux with pass-through interceptors and a stats handler: options must not
+	// detach the handler's context from the request
+	scs = append(scs, c15Scenario("grpc", "unary", false, true), c15Scenario("grpc", "bidi", false, true), c15Scenario("web", "ss", false, true), c15Scenario("http", "cs", false, true))
 	return scs
 }
 
 func runC15(c *Ctx) {
 	r := c.Run
-	r.Rule("part 1: every grpc-timeout of 1..5 (thorough 1..7) digits × 6 units through the real gRPC entry path (deadline bracket t_receipt+T <= deadline <= t_handler+T, hour clamp), boundary values of the remaining digit counts through the full path and strides (thorough: the complete 8-digit layer) through the parser hook, 32 malformed shapes; part 2: scenarios {gRPC, gRPC-web, HTTP transcoding} × {unary, client-, server-, bidi-streaming} (+ two with a goroutine leaked by the handler that keeps sending): server thread, client feeder thread (messages, half-close), client cancel thread (cancel + failing reads/writes, as net/http does); every interleaving up to the preemption bound; oracle per schedule: after the cancellation every handler observation of ctx.Err() is non-nil, stream calls started after it fail, a parked Recv is released, ServeHTTP returns (deadlock detection), nothing is written to the ResponseWriter after ServeHTTP returned; distinct = timeout shards + (scenario, outcome)")
+	r.Rule("part 1: every grpc-timeout of 1..5 (thorough 1..7) digits × 6 units through the real gRPC entry path (deadline bracket t_receipt+T <= deadline <= t_handler+T, hour clamp), boundary values of the remaining digit counts through the full path and strides (thorough: the complete 8-digit layer) through the parser hook, 32 malformed shapes; part 2: scenarios {gRPC, gRPC-web, HTTP transcoding} × {unary, client-, server-, bidi-streaming} (+ two with a goroutine leaked by the handler that keeps sending, + four on a mux with pass-through interceptors and a stats handler; part 1 alternates between the plain mux and such a mux): server thread, client feeder thread (messages, half-close), client cancel thread (cancel + failing reads/writes, as net/http does); every interleaving up to the preemption bound; oracle per schedule: after the cancellation every handler observation of ctx.Err() is non-nil, stream calls started after it fail, a parked Recv is released, ServeHTTP returns (deadlock detection), nothing is written to the ResponseWriter after ServeHTTP returned; distinct = timeout shards + (scenario, outcome)")
 	r.Assume("'promptly' means at the handler's next observation; real RST_STREAM delivery is net/http's job", "signed timeout values are not demanded either way")
 	t, err := newTSchema()
 	if err != nil {
@@ -605,7 +644,11 @@ func replayC15(c *Ctx, v report.Violation) {
 	var tc c15TimeoutCase
 	if remarshal(v.Case, &tc) && (tc.Timeout != "" || strings.Contains(v.Key, "grpc-timeout")) {
 		t, _ := newTSchema()
-		oracle, note := newC15Env(t).timeoutCheck(tc.Timeout, true)
+		e := newC15Env(t)
+		oracle, note := e.timeoutCheck(tc.Timeout, true) // plain mux
+		if oracle == "" {
+			oracle, note = e.timeoutCheck(tc.Timeout, true) // mux with options
+		}
 		fmt.Printf("replay: grpc-timeout=%q -> oracle=%q %s\n", tc.Timeout, oracle, note)
 		if oracle != "" {
 			c.Run.Violation(report.Violation{Oracle: oracle, Key: v.Key, Case: tc, Note: note})
